@@ -35,6 +35,12 @@ def _mask(node, m):
     return {'op': 'slice', 'form': {'k': 'mask', 'bits': [i % 2 == 0 for i in range(m.n)]}, 'in': node}
 
 
+def _mask_list(node, m):
+    if not m.indexable:
+        return None
+    return {'op': 'slice', 'form': {'k': 'mask', 'bits': [i % 2 == 1 for i in range(m.n)], 'as': 'list'}, 'in': node}
+
+
 def _keys(node, m):
     if not (m.indexable and m.cap_keys == 'req' and not m.taint and m.keys and len(set(m.keys)) == len(m.keys)):
         return None
@@ -88,6 +94,7 @@ TEMPLATES = [
     ('ilist_list', _ilist('list')),
     ('ilist_np', _ilist('np64')),
     ('mask', _mask),
+    ('mask_pylist', _mask_list),
     ('keylist', _keys),
     ('batch2', _u('batch', n=2, drop_last=False)),
     ('batch2_drop', _u('batch', n=2, drop_last=True)),
